@@ -200,7 +200,7 @@ notation!(
 		mut minor_version: u16,
 		mut major_version: u16,
 		const constant_pool_count: u16 = this.constant_pool.len() + 1,
-		mut constant_pool: Vec<CpInfo> {constant_pool_count - 1}; Some(&constant_pool),
+		mut constant_pool: Vec<CpInfo> {constant_pool_count.checked_sub(1).ok_or_else(|| std::io::Error::other("the constant_pool_count must not be zero"))?}; Some(&constant_pool),
 		mut access_flags: u16,
 		mut this_class: u16,
 		mut super_class: u16,
